@@ -283,7 +283,7 @@ impl Prop for C05 {
         Ok(())
     }
     fn rule(&self) -> String {
-        "generated (site |lat|<=60, GMT within 6 h, one of the 8 named methods optionally with custom angles in [9,21], 4 rounding modes, policy None (2/3) or the library default (1/3), date mixture). Non-trivial = at least 5 comparable (valid, unflagged) entries incl. Dhuhr; distinct by hash of the case".into()
+        "generated (site |lat|<=60, GMT within 6 h, one of the 8 named methods optionally with custom angles in [9,21], 4 rounding modes, policy None (2/3) or the library default (1/3), date mixture). One case in 16 is boundary-directed (longitude bisected to where the entry nearest midnight crosses 24:00, +-8 ulps); one in 11 has its local midnight within 12 minutes of the RA wrap; every case is preceded by a priming call with a sibling input. Non-trivial = at least 5 comparable (valid, unflagged) entries incl. Dhuhr; distinct by hash of the case".into()
     }
     fn assumptions(&self) -> Vec<String> {
         vec![
